@@ -259,7 +259,7 @@ class Report:
         }
         d = os.path.join(VERIF, 'evidence')
         os.makedirs(d, exist_ok=True)
-        tmp = os.path.join(d, '.%s.json.tmp' % self.pid)
+        tmp = os.path.join(d, '.%s.json.%d.tmp' % (self.pid, os.getpid()))      # unique per process: concurrent runs of one check must not trip over each other
         with open(tmp, 'w') as f:
             json.dump(ev, f, indent=1, sort_keys=True, default=str)
         os.replace(tmp, os.path.join(d, '%s.json' % self.pid))
